@@ -1001,6 +1001,59 @@ pub proof fn lemma_tpos_distinct(rv: Seq<usize>, j1: int, j2: int, sm: int)
         proof { lemma_tril_final(K0, K2, *K, *P, *A, gn, map.P@, map.A@); }
 //@end
 
+//@fn file=src/solver/core/kktsolvers/direct/quasidef/kkt_assembly.rs name=_kkt_assemble_fill as=kkt_diag_maps_triu rules=R1,R17,R28,zipidx:* from=@arm to="MatrixTriangle::Triu#2" header="fn _kkt_assemble_fill<T: FloatT>(K: &CscMatrix<T>, map: &mut LDLDataMap, n: usize)"
+//@contract
+    requires
+        K.colptr@.len() >= 1, old(map).diag_full@.len() == K.colptr@.len() - 1, old(map).diagP@.len() == n, n < K.colptr@.len(),
+        forall|c: int| 1 <= c < K.colptr@.len() ==> #[trigger] K.colptr@[c] >= 1,
+    ensures
+        // C11: the recorded diagonal slot of column c is the last slot of that column (upper-triangle layout)
+        final(map).diag_full@.len() == K.colptr@.len() - 1, final(map).diagP@.len() == n,
+        forall|c: int| 0 <= c < K.colptr@.len() - 1 ==> #[trigger] final(map).diag_full@[c] == K.colptr@[c + 1] - 1,
+        forall|c: int| 0 <= c < n ==> #[trigger] final(map).diagP@[c] == K.colptr@[c + 1] - 1,
+        final(map).P@ == old(map).P@, final(map).A@ == old(map).A@,
+//@pre
+        let ghost cp = K.colptr@;
+        proof { assert(K.colptr@.len() == K.colptr.len()); }
+//@after_stmt 1
+        proof { assert(map.diag_full@ =~= cp.subrange(1, cp.len() as int)); }
+//@loop 1
+            invariant
+                r14_n1 == map.diag_full@.len(), map.diag_full@.len() == cp.len() - 1, map.diagP@.len() == n, cp == K.colptr@,
+                forall|c: int| 1 <= c < cp.len() ==> #[trigger] cp[c] >= 1,
+                forall|c: int| 0 <= c < r14_i1 ==> #[trigger] map.diag_full@[c] == cp[c + 1] - 1,
+                forall|c: int| r14_i1 <= c < cp.len() - 1 ==> #[trigger] map.diag_full@[c] == cp[c + 1],
+                map.P@ == old(map).P@, map.A@ == old(map).A@,
+//@after_stmt 3
+        proof { assert(map.diagP@ =~= cp.subrange(1, n + 1)); }
+//@loop 2
+            invariant
+                r14_n2 == map.diagP@.len(), map.diag_full@.len() == cp.len() - 1, map.diagP@.len() == n, cp == K.colptr@, n < cp.len(),
+                forall|c: int| 1 <= c < cp.len() ==> #[trigger] cp[c] >= 1,
+                forall|c: int| 0 <= c < cp.len() - 1 ==> #[trigger] map.diag_full@[c] == cp[c + 1] - 1,
+                forall|c: int| 0 <= c < r14_i2 ==> #[trigger] map.diagP@[c] == cp[c + 1] - 1,
+                forall|c: int| r14_i2 <= c < n ==> #[trigger] map.diagP@[c] == cp[c + 1],
+                map.P@ == old(map).P@, map.A@ == old(map).A@,
+//@end
+
+//@fn file=src/solver/core/kktsolvers/direct/quasidef/kkt_assembly.rs name=_kkt_assemble_fill as=kkt_diag_maps_tril rules=R1 from=@arm to="MatrixTriangle::Tril#2" header="fn _kkt_assemble_fill<T: FloatT>(K: &CscMatrix<T>, map: &mut LDLDataMap, n: usize)"
+//@contract
+    requires K.colptr@.len() >= 1, old(map).diag_full@.len() == K.colptr@.len() - 1, old(map).diagP@.len() == n, n < K.colptr@.len(),
+    ensures
+        // C11: the recorded diagonal slot of column c is the first slot of that column (lower-triangle layout)
+        final(map).diag_full@.len() == K.colptr@.len() - 1, final(map).diagP@.len() == n,
+        forall|c: int| 0 <= c < K.colptr@.len() - 1 ==> #[trigger] final(map).diag_full@[c] == K.colptr@[c],
+        forall|c: int| 0 <= c < n ==> #[trigger] final(map).diagP@[c] == K.colptr@[c],
+        final(map).P@ == old(map).P@, final(map).A@ == old(map).A@,
+//@pre
+        let ghost cp = K.colptr@;
+        proof { assert(K.colptr@.len() == K.colptr.len()); }
+//@after_stmt 1
+        proof { assert(map.diag_full@ =~= cp.subrange(0, cp.len() - 1)); }
+//@after_stmt 2
+        proof { assert(map.diagP@ =~= cp.subrange(0, n as int)); }
+//@end
+
 // ---- KKT assembly, upper-triangle layout: the three fills that place P, its missing diagonal entries and A' ----
 pub open spec fn pcnt(P: CscMatrix<F>, c: int) -> int { P.colptr@[c + 1] - P.colptr@[c] }
 pub open spec fn mdn(P: CscMatrix<F>, c: int) -> int { if missing_diag(P, c) { 1int } else { 0int } }
@@ -1258,6 +1311,43 @@ pub proof fn lemma_kkt_cursors_mono(K: CscMatrix<F>, P: CscMatrix<F>, A: CscMatr
     }
 }
 
+
+
+// C11 "a complete diagonal, recorded": chaining the contracts of the upper-triangle arm, backshift_colptrs and the
+// diag-map arm.  Kc = K after the cone loop, ASSUMED (the loop is not under contract) to leave the columns < n as the arm
+// left them; Kb = K after backshift_colptrs; diag_p as written by kkt_diag_maps_triu.
+#[verifier::spinoff_prover]
+pub proof fn lemma_triu_diagonal_recorded(K0: CscMatrix<F>, K3: CscMatrix<F>, Kc: CscMatrix<F>, Kb: CscMatrix<F>, P: CscMatrix<F>, A: CscMatrix<F>,
+                                          n: int, mapP: Seq<usize>, mapA: Seq<usize>, diag_p: Seq<usize>)
+    requires
+        kkt_triu_pre(K0, P, A, n), kkt_triu_post(K0, K3, P, A, n, mapP, mapA),
+        // the cone loop (assumed): cursors of the columns < n and the slots below the A' block untouched
+        Kc.colptr@.len() == K3.colptr@.len(), Kc.rowval@.len() == K3.rowval@.len(),
+        forall|c: int| 0 <= c < n ==> #[trigger] Kc.colptr@[c] == K3.colptr@[c],
+        forall|s: int| 0 <= s < K0.colptr@[n] ==> #[trigger] Kc.rowval@[s] == K3.rowval@[s],
+        // backshift_colptrs (its contract)
+        Kb.colptr@.len() == Kc.colptr@.len(), Kb.colptr@[0] == 0, Kb.rowval@ == Kc.rowval@,
+        forall|c: int| 1 <= c < Kc.colptr@.len() ==> #[trigger] Kb.colptr@[c] == Kc.colptr@[c - 1],
+        // kkt_diag_maps_triu (its contract)
+        diag_p.len() == n, forall|c: int| 0 <= c < n ==> #[trigger] diag_p[c] == Kb.colptr@[c + 1] - 1,
+        K0.colptr@[0] == 0,
+    ensures
+        forall|c: int| 0 <= c < n ==> Kb.colptr@[c] <= #[trigger] diag_p[c] < Kb.colptr@[c + 1] && Kb.rowval@[diag_p[c] as int] == c,
+{
+    assert forall|c: int| 0 <= c < n implies Kb.colptr@[c] <= #[trigger] diag_p[c] < Kb.colptr@[c + 1] && Kb.rowval@[diag_p[c] as int] == c by {
+        assert(Kb.colptr@[c + 1] == Kc.colptr@[c]);
+        assert(K3.colptr@[c] == K0.colptr@[c] + pcnt(P, c) + mdn(P, c));
+        assert(sp_triu(K0, P, c));
+        lemma_kkt_cursors_mono(K0, P, A, n, c + 1, n);
+        if c > 0 {
+            assert(Kb.colptr@[c] == Kc.colptr@[c - 1]);
+            assert(K3.colptr@[c - 1] == K0.colptr@[c - 1] + pcnt(P, c - 1) + mdn(P, c - 1));
+            assert(sp_triu(K0, P, c - 1));
+        }
+        let d = K3.colptr@[c] - 1;
+        assert(Kc.rowval@[d] == K3.rowval@[d]);
+    }
+}
 
 // ---- KKT assembly, lower-triangle layout: missing diagonal entries first, then P transposed, then A below it ----
 pub open spec fn prow(P: CscMatrix<F>, c: int) -> int { count_row(P.rowval@, c, P.rowval@.len() as int) }
